@@ -72,6 +72,17 @@ Theorem C15_next_per_list :
 Proof. split; [exact paths_per_list|exact count_loc_own]. Qed.
 Print Assumptions C15_next_per_list.
 
+(* The counter segments of the scenario model (Model/Scenario.v: seg_next for csv tables,
+   seg_vnext for list variables) ARE the keys this path model computes for the documented
+   spellings source.<src>[next].<field> and source.<src>.<lst>[next] in iterator [own]; so the
+   statements above apply to the preprocessor paths of C15_next_in_preprocessor. *)
+Theorem C15_next_scenario_keys :
+  forall own src field lst,
+    seg_next own src = nkey [own] [CPlain ex_source; CNext src; CPlain field] /\
+    seg_vnext own src lst = nkey [own] [CPlain ex_source; CPlain src; CNext lst].
+Proof. exact scenario_keys. Qed.
+Print Assumptions C15_next_scenario_keys.
+
 (* Why the whole path must be the key (the model's key is not an idle detail): with the bare
    segment as the key — the parents forgotten — source.eu.users[next] and source.us.users[next]
    share one counter and the history eu, us, eu, us gets e0, u1, e2, u1 instead of e0, u0, e1, u1. *)
